@@ -43,7 +43,7 @@ def cases(tier: str, seed: int) -> list[dict]:
             cap = 12 if tier == "quick" else 40
             if len(ns) > cap:
                 ns = sorted(rng.sample(ns, cap))
-            ev += [{"a": "SelectIndex", "n": n, "kind": kind} for n in ns]
+            ev += [dict({"a": "SelectIndex", "n": n, "kind": kind}, **({"api": "unravel_index"} if k % 3 == 2 else {})) for k, n in enumerate(ns)]
             # several cells asked for in one call: position k of the answer is cell ns[k]
             if len(ns) >= 2:
                 ev.append({"a": "SelectIndexes", "ns": [ns[-1], ns[0], ns[len(ns) // 2]], "kind": kind, "dim": "req"})
